@@ -19,12 +19,13 @@ func init() {
 			ID: "C17", Title: "Every BGP message bio-rd emits is well-formed and round-trips", Level: "other",
 			Technique:   "narrowing-conversion guard check (R-TAINT) over the serializers; size-effect analysis (R-SIZE: linear forms in collection sizes, core/size.go) for the message length field and the 4096 gate; guard-equivalence of the extended-length flag and the width of the length field; switch-table agreement of encoder and decoder",
 			DesignRef:   "DESIGN.md §4 C17",
-			Decided:     "(1) every conversion of a len()-derived integer to one octet that a serializer writes as a length or count is dominated by a test that it fits (or the extended-length branch is taken when it does not); (2) in every attribute serializer the condition under which the extended-length flag is set is the condition under which the two-octet length is written, and it tests the value that is written; (3) for OPEN, UPDATE, NOTIFICATION and KEEPALIVE the length passed to the header equals the number of bytes the serializer appends (as linear forms), and SerializeUpdate returns bytes only when a dominating test bounds that same quantity by 4096; (4) the AS_PATH segment split in Prepend tests the number of ASNs of the first segment; (5) every attribute type the encoder has a typed serializer for is one the decoder decodes into that type (otherwise a received unknown attribute with that code crashes the encoder's type assertion).",
+			Decided:     "(0) the linked lists of attributes/NLRI are built by appending behind a cursor that is advanced to the element just linked in; (1) every conversion of a len()-derived integer to one octet that a serializer writes as a length or count is dominated by a test that it fits (or the extended-length branch is taken when it does not); (2) in every attribute serializer the condition under which the extended-length flag is set is the condition under which the two-octet length is written, and it tests the value that is written; (3) for OPEN, UPDATE, NOTIFICATION and KEEPALIVE the length passed to the header equals the number of bytes the serializer appends (as linear forms), and SerializeUpdate returns bytes only when a dominating test bounds that same quantity by 4096; (4) the AS_PATH segment split in Prepend tests the number of ASNs of the first segment; (5) every attribute type the encoder has a typed serializer for is one the decoder decodes into that type (otherwise a received unknown attribute with that code crashes the encoder's type assertion).",
 			NotDecided:  "byte-for-byte round-trip equality of the content (value equality is not a shape of the code); flags other than extended length.",
 			TrustedBase: stdTrusted,
 		},
 		Run: runC17,
 		Controls: []Control{
+			{Name: "unknown-attributes-appended-behind-wrong-cursor", File: "protocols/bgp/packet/path_attributes.go", Old: "\t\t\tValue:      unknownAttr.Value,\n\t\t}\n\t\tlast = last.Next\n", New: "\t\t\tValue:      unknownAttr.Value,\n\t\t}\n\t\tlast = optionals.Next\n", Expect: "list-append-advances-cursor"},
 			{Name: "refactor-threshold-written-differently", Silent: true, File: "protocols/bgp/packet/path_attributes.go", Old: "\tlength := uint16(CommunityLen * len(*coms))\n\n\tattrFlags := uint8(0)\n\tattrFlags = setOptional(attrFlags)\n\tattrFlags = setTransitive(attrFlags)\n\tattrFlags = setPartial(attrFlags)\n\tif length > 255 {", New: "\tlength := uint16(CommunityLen * len(*coms))\n\n\tattrFlags := uint8(0)\n\tattrFlags = setOptional(attrFlags)\n\tattrFlags = setTransitive(attrFlags)\n\tattrFlags = setPartial(attrFlags)\n\tif length >= 256 {"},
 			{Name: "extended-flag-per-segment", File: "protocols/bgp/packet/path_attributes.go", Old: "\tif length > 255 {\n\t\tattrFlags = setExtendedLength(attrFlags)\n\t}\n\n\tbuf.WriteByte(attrFlags)\n\tbuf.WriteByte(ASPathAttr)", New: "\tif asnLength > 255 {\n\t\tattrFlags = setExtendedLength(attrFlags)\n\t}\n\n\tbuf.WriteByte(attrFlags)\n\tbuf.WriteByte(ASPathAttr)", Expect: "extended-length-agreement"},
 			{Name: "gate-on-body-length", File: "protocols/bgp/packet/update.go", Old: "\ttotalLength := 2 + withdrawnRoutesLen + totalPathAttributesLen + 2 + nlriBuf.Len() + 19\n\tif totalLength > 4096 {", New: "\ttotalLength := 2 + withdrawnRoutesLen + totalPathAttributesLen + 2 + nlriBuf.Len() + 19\n\tif totalLength-19 > 4096 {", Expect: "size-gate"},
@@ -430,6 +431,8 @@ func runC17(c *core.Ctx) {
 	if f := c.MustFunc(pktPkg + ".(*BGPUpdate).SerializeUpdate"); f != nil {
 		sizeGate(c, f)
 	}
+
+	listAppendAdvancesCursor(c)
 
 	// (6) attribute values that may be nil are guarded at the producer or in the serializer -------------------------------
 	nilableAttributes(c)
